@@ -21,7 +21,7 @@ CHECKS = {
             "content carries unique text and binary markers; after quiescence the checker requires exactly one delivery per "
             "intended recipient with identical protobuf content, sender and group identity, none elsewhere, no delivery without "
             "a sent message, the recipient's delivery receipt at the sender, re-acknowledged duplicates, a retry receipt after "
-            "corruption, and no marker in any frame that left a client. 420 runs quick / 25 000 thorough; schedules sampled. A plaintext frame is attributed to the known recipient-without-keys mechanism by what the server double observed (its directory had no keys for the recipient when the sender asked), not by the scenario. Message kinds include replies quoting an earlier message; the leading field of every delivered message (text, caption url, name, quoted text) is read from the entity itself and compared with what the sender wrote, independently of the library's converter. In a quarter of the framed runs every send happens in its own application thread while the scheduler keeps delivering to the same client (yield injection in the axolotl layers, manager and stores). A third of the accounts run with the identity auto-trust option on (nobody changes identity in these runs); one restart in four finds the key store locked at first.",
+            "corruption, and no marker in any frame that left a client. 420 runs quick / 25 000 thorough; schedules sampled. A plaintext frame is attributed to the known recipient-without-keys mechanism by what the server double observed (its directory had no keys for the recipient when the sender asked), not by the scenario. Message kinds include replies quoting an earlier message; the leading field of every delivered message (text, caption url, name, quoted text) is read from the entity itself and compared with what the sender wrote, independently of the library's converter. In a quarter of the framed runs every send happens in its own application thread while the scheduler keeps delivering to the same client (yield injection in the axolotl layers, manager and stores). A third of the accounts run with the identity auto-trust option on (nobody changes identity in these runs); one restart in four finds the key store locked at first. In 30% of the runs the server double relays group messages with the sender-key part before the pairwise part.",
             "Trusted: the server double (our reading of the server's routing), python-axolotl (padding shim). Framed wiring without noise/segments (C04/C11 cover those).",
             "DESIGN.md 4/C03"),
     "C01": ("exploration",
@@ -30,7 +30,7 @@ CHECKS = {
             "length 1..255 incl. JID users, '@' placements, content sizes around 2^8/2^16/2^20 alone, followed by a sibling "
             "and nested two levels down, list sizes around 128/256, every byte value) plus 3 000 (quick) / 160 000 (thorough, "
             "incl. two ~16 MiB nodes) random trees are round-tripped through the real encoder and decoder and compared by an "
-            "independent strict comparator. Sampled above the sweep; no finite run covers all trees. Every seventh decoded tree is annotated afterwards (attributes set, a child added): later cases, compared with plain data, expose any state shared between node objects. Every 11th case a stream-end frame is decoded (and received by the coder layer) between two stanzas; what follows is judged as before.",
+            "independent strict comparator. Sampled above the sweep; no finite run covers all trees. Every seventh decoded tree is annotated afterwards (attributes set, a child added): later cases, compared with plain data, expose any state shared between node objects. Every 11th case a stream-end frame is decoded (and received by the coder layer) between two stanzas; what follows is judged as before. After every fifth tree a sibling (equal tag, attributes, data, child count and first child; different further down) goes through the same encoder, decoder and layers.",
             "Trusted: the comparator and generators. Inputs well-formed per the quantifier.",
             "DESIGN.md 4/C01"),
     "C02": ("exploration",
@@ -48,7 +48,7 @@ CHECKS = {
             "Every partition of every short frame list (all 2^(L-1) chunkings, L up to 15 quick / 19 thorough, two content "
             "modes incl. header-looking payloads) plus random streams up to 16 MiB frames are pushed through the real "
             "YowNoiseSegmentsLayer; a probe above must see exactly the sent frames, a probe below exactly len3+payload. "
-            "Exhaustive for short streams, sampled above; that is as much as executions can give for an unbounded input space. Reconnect cases: a stream is cut at a random byte, the 'disconnected' announcement is emitted the way the network layer does (detached, from the layer directly below) and the next stream follows before the stack's loop turns; exactly the complete frames before the cut and all later frames must come out. Real dispatchers: the loopback server writes frames around and above 64 KiB and bursts of thousands of small ones; the bytes handed to the framing layer must equal the bytes written and the connection must stay up. Real dispatchers also: local disconnect while a frame is half received (the rest arrives before the peer closes), then a new login on the same stack. Half of the mid-frame cases have an impatient application (connect requests from the moment of the disconnect request) and a peer that is slow to close: every request made while the old connection has not been announced down must be refused. Histories on one framing layer in which framing is switched on and off between writes and reads (as the Noise layer does around the prologue when the profile has edge routing info) and connections end.",
+            "Exhaustive for short streams, sampled above; that is as much as executions can give for an unbounded input space. Reconnect cases: a stream is cut at a random byte, the 'disconnected' announcement is emitted the way the network layer does (detached, from the layer directly below) and the next stream follows before the stack's loop turns; exactly the complete frames before the cut and all later frames must come out. Real dispatchers: the loopback server writes frames around and above 64 KiB and bursts of thousands of small ones; the bytes handed to the framing layer must equal the bytes written and the connection must stay up. Real dispatchers also: local disconnect while a frame is half received (the rest arrives before the peer closes), then a new login on the same stack. Half of the mid-frame cases have an impatient application (connect requests from the moment of the disconnect request) and a peer that is slow to close: every request made while the old connection has not been announced down must be refused. Histories on one framing layer in which framing is switched on and off between writes and reads (as the Noise layer does around the prologue when the profile has edge routing info) and connections end. A second stack of the process toggles its own framing meanwhile; stacks are built with and without a props argument.",
             "Trusted: the probe layers and the list comparison. Frames are non-empty. Single-threaded delivery (one network thread).",
             "DESIGN.md 4/C05"),
     "C15": ("exploration",
@@ -56,7 +56,7 @@ CHECKS = {
             "Every plaintext length 0..64 (thorough 0..160) x 4 kinds x 8-24 random keys, plus random lengths to 1 MiB, is "
             "encrypted and decrypted by the real MediaCipher (generic and per-kind wrappers) and compared with an independent "
             "implementation of the WhatsApp layout; for every length 0..64 every byte position of ciphertext+tag is flipped "
-            "(3 patterns quick, all 255 for <=32 B thorough), every truncation, wrong key and the 3 wrong kinds must raise. Consumer path: incoming media entities are handed to the demos' SinkWorker with the download replaced by the ciphertext (tqdm/requests stubbed): the stored file must equal the original, empty files included, tampered downloads store nothing.",
+            "(3 patterns quick, all 255 for <=32 B thorough), every truncation, wrong key and the 3 wrong kinds must raise. Consumer path: incoming media entities are handed to the demos' SinkWorker with the download replaced by the ciphertext (tqdm/requests stubbed): the stored file must equal the original, empty files included, tampered downloads store nothing. One cipher object shared by four threads with thread switches injected inside mediacipher.py.",
             "Trusted: cryptography's AES-CBC, hashlib HMAC, the frozen real-world vector that anchors the reference. Random keys sampled.",
             "DESIGN.md 4/C15"),
     "C20": ("exploration",
@@ -64,7 +64,7 @@ CHECKS = {
             "Tokens for digit strings of every length 1..20 and generated unicode phone strings are compared with an independent "
             "HMAC-SHA1; every single byte / Latin-1 char / a spread of code points and generated str/bytes/int values must "
             "percent-decode to the original; generated parameter lists and the three real request classes (preview mode, "
-            "sendRequest intercepted, harness recipient key) must decrypt to the encoded parameters in order under distinct ephemeral keys. Tokens for different numbers are also computed concurrently by 2-4 threads on the process-wide environment object with yield injection inside yowsup/env. Every request object is sent a second time and a third time after addParam: fresh ephemeral key, current parameters. A second environment class with other constants is registered: each environment's tokens are the keyed hash with its own constants, whatever was asked of the other before. Every fourth request object reuses the previous full number under another country-code split.",
+            "sendRequest intercepted, harness recipient key) must decrypt to the encoded parameters in order under distinct ephemeral keys. Tokens for different numbers are also computed concurrently by 2-4 threads on the process-wide environment object with yield injection inside yowsup/env. Every request object is sent a second time and a third time after addParam: fresh ephemeral key, current parameters. A second environment class with other constants is registered: each environment's tokens are the keyed hash with its own constants, whatever was asked of the other before. Every fourth request object reuses the previous full number under another country-code split. Three (thorough: 48) fresh processes whose first use of the environment is four threads computing tokens at once.",
             "Trusted: frozen copies of the three token constants, hmac/urllib/cryptography. Input space sampled.",
             "DESIGN.md 4/C20"),
     "C18": ("exploration",
@@ -74,7 +74,7 @@ CHECKS = {
             "emitter x consumer x emit/broadcast x normal/detached event (exactly once, in order, nothing after the consumer, "
             "deferred part only after the library's own loop body ran), interface lookup by class; all 16 getProtocolLayers/"
             "getDefaultLayers combos, positional forms, all 32x2 getDefaultStack combos, pushDefaultLayers. Exhaustive for the "
-            "small shapes and the flag space, sampled above. Every stack built by the default helpers is kept and its wiring (neighbour links, stack membership of every layer and sublayer) is verified again after later stacks were built; a builder with a pushed, popped and pushed layer is included. The library's own pass-through layer (logger) is placed as plain layer and as member of parallel groups of every size/position in explicit, implicit and builder compositions: data must reach every layer once. Four stacks carry a subclass of the library's interface layer on top: each finds the network/auth interfaces of its own stack, in any asking order. 150 stacks of random shape over the library's own YowNetworkLayer: its dispatcher callbacks are called for 2-4 connections in a row; connected seen once at once, disconnected once by the neighbour at once and by the rest only when the loop runs. 120 stacks of the library's own layers (any module selection, with/without encryption layers) under drawn values of ping interval, passive, auto-trust and reconnect: events emitted below reach a probe above exactly once, broadcasts from above reach a probe below exactly once.",
+            "small shapes and the flag space, sampled above. Every stack built by the default helpers is kept and its wiring (neighbour links, stack membership of every layer and sublayer) is verified again after later stacks were built; a builder with a pushed, popped and pushed layer is included. The library's own pass-through layer (logger) is placed as plain layer and as member of parallel groups of every size/position in explicit, implicit and builder compositions: data must reach every layer once. Four stacks carry a subclass of the library's interface layer on top: each finds the network/auth interfaces of its own stack, in any asking order. 150 stacks of random shape over the library's own YowNetworkLayer: its dispatcher callbacks are called for 2-4 connections in a row; connected seen once at once, disconnected once by the neighbour at once and by the rest only when the loop runs. 120 stacks of the library's own layers (any module selection, with/without encryption layers) under drawn values of ping interval, passive, auto-trust and reconnect: events emitted below reach a probe above exactly once, broadcasts from above reach a probe below exactly once. Eight complete default stacks (any module selection) through a whole first login against the server double: the network layer's state events are seen once, in order, above the whole stack.",
             "Trusted: the reference interpreter (our reading of the statement). Siblings inside the emitter's/consumer's own group: only 'at most once'.",
             "DESIGN.md 4/C18"),
     "C19": ("fault_enumeration",
@@ -84,7 +84,7 @@ CHECKS = {
             "save(dest=), config_to_str+file and YowProfile.write_config, loaded by path with/without extension and by profile "
             "name, profile directory existing or not. Crash points: every Python line of the save path, the file open, every "
             "7-byte chunk reaching the OS, close and rename are enumerated completely for each sampled save; a forked child is "
-            "killed there and the parent requires load() to return the previous or the new configuration. The previous configuration is either config.json or a key=value config.yo in the profile directory. JSON values include lone surrogates. In half of the round trips the configuration is read (keys, str, items) before it is saved.",
+            "killed there and the parent requires load() to return the previous or the new configuration. The previous configuration is either config.json or a key=value config.yo in the profile directory. JSON values include lone surrogates. In half of the round trips the configuration is read (keys, str, items) before it is saved. 40% of the profiles are saved a second time with other values (JSON profile routes); loads also through stack.setProfile(name).",
             "Trusted: os.rename atomicity and the filesystem; process death only (no power loss). Saves to enumerate are sampled, their crash points are complete.",
             "DESIGN.md 4/C19"),
     "C13": ("fault_enumeration",
@@ -95,7 +95,7 @@ CHECKS = {
             "before/after each DML statement, before/after each commit, every Python line in store/sqlite/*.py - is a crash point: "
             "a forked child is killed there, the parent reopens the file and requires every record to be its old or its new "
             "value, never missing; plus two-party conversations continued across restarts of either side. Crash points are "
-            "complete per operation instance; states and sequences are sampled. Manager level: level_prekeys / generate_signed_prekey / set_prekeys_as_sent through AxolotlManager with batch sizes 1..205; after every returned call the database files are copied as a kill would leave them and the copy must show what the live store shows. Crash children first replay a state-preserving tail of the history (and sometimes an upload confirmation) on their own connection before the judged operation. Busy start: another connection holds the profile's key store lock past the busy timeout while the client starts through the factory; after the lock is gone the next start must find the stored state. Ops store...Again: a record is stored under an id that is taken; refused or replaced, whatever the live store shows has to survive the restart that follows at once in half of the cases.",
+            "complete per operation instance; states and sequences are sampled. Manager level: level_prekeys / generate_signed_prekey / set_prekeys_as_sent through AxolotlManager with batch sizes 1..205; after every returned call the database files are copied as a kill would leave them and the copy must show what the live store shows. Crash children first replay a state-preserving tail of the history (and sometimes an upload confirmation) on their own connection before the judged operation. Busy start: another connection holds the profile's key store lock past the busy timeout while the client starts through the factory; after the lock is gone the next start must find the stored state. Ops store...Again: a record is stored under an id that is taken; refused or replaced, whatever the live store shows has to survive the restart that follows at once in half of the cases. Profiles: 2-3 profiles in one process, two of them for the same phone number; each key store file, read on its own, shows what was stored through that profile.",
             "Trusted: SQLite's atomic commit, the filesystem, python-axolotl (with the block-aligned padding shim). Process death only.",
             "DESIGN.md 4/C13"),
     "C10": ("exploration",
@@ -105,7 +105,7 @@ CHECKS = {
             "to depth 3) go through message_to_protobytes/protobytes_to_message and through the message entity classes; a "
             "reflective comparator walks the public properties of the attribute classes and requires every field the sender set "
             "to come back equal. In the other direction protobuf payloads built directly with generated fields are parsed and "
-            "re-serialised and compared on the fields the library models. Entities are also re-composed: after a first serialisation every field is changed through its property and the second payload must carry the new content. Half of the objects are composed with unset arguments left out (not passed as None); list-valued fields of earlier objects are edited in place; a field the sender did not set must not carry a non-empty value in the composed object.",
+            "re-serialised and compared on the fields the library models. Entities are also re-composed: after a first serialisation every field is changed through its property and the second payload must carry the new content. Half of the objects are composed with unset arguments left out (not passed as None); list-valued fields of earlier objects are edited in place; a field the sender did not set must not carry a non-empty value in the composed object. Message keys carry newer group ids without a dash, the status list, broadcast lists and companion-device JIDs.",
             "Trusted: protobuf runtime; field types read from the generated descriptors. Unset fields may come back as defaults (counted).",
             "DESIGN.md 4/C10"),
     "C04": ("exploration",
@@ -117,7 +117,7 @@ CHECKS = {
             "plain, cut-off-then-retry, cut-inside-reply-then-retry, reconnect-after-transport, corrupted reply (must surface "
             "as <failure> + event, not hang). The responder checks the presented account/passive/push name/user agent and "
             "decrypts client frames strictly in counter order; server frames glued to the reply and random traffic both ways "
-            "must arrive intact and in order; the stored profile must hold a changed server key. Interleavings are sampled. A completion-race sweep holds the handshake worker inside its last write and releases it at line event k (every k) of the network thread's delivery of the first transport frames; frames sent around completion must be up before anything else is sent (a stranded frame with all threads idle is a violation). History relogin-after-server-failure: <failure/> after the handshake, the layer above closes the connection from inside that delivery, a partial further frame follows in the same segment, then a new login. Over both real dispatchers (loopback TCP): login, then a 6-12 MB stanza next to small ones while the peer does not read for 0.3-2.5 s; all must arrive whole, once, in order.",
+            "must arrive intact and in order; the stored profile must hold a changed server key. Interleavings are sampled. A completion-race sweep holds the handshake worker inside its last write and releases it at line event k (every k) of the network thread's delivery of the first transport frames; frames sent around completion must be up before anything else is sent (a stranded frame with all threads idle is a violation). History relogin-after-server-failure: <failure/> after the handshake, the layer above closes the connection from inside that delivery, a partial further frame follows in the same segment, then a new login. Over both real dispatchers (loopback TCP): login, then a 6-12 MB stanza next to small ones while the peer does not read for 0.3-2.5 s; all must arrive whole, once, in order. In a third of the cases logins are started by the library's authentication layer on the connected announcement (also after an attempt that was cut off).",
             "Trusted: dissononce/consonance (with the randint shim), the responder double. Hang = stable blocked state, a bare timeout is inconclusive.",
             "DESIGN.md 4/C04"),
     "C11": ("exploration",
@@ -133,7 +133,7 @@ CHECKS = {
             "asyncore dispatchers over loopback TCP against a server thread (Noise responder per connection), with statement-"
             "level yield injection inside the dispatchers and asyncore: the bytes read from the peer's socket must equal, byte "
             "for byte, what the stack handed to the network layer (this also judges the handshake thread's writes against the "
-            "asyncore loop's), every frame must decrypt in counter order and every stanza id arrive exactly once. A quarter of the probe-level runs start their senders during the handshake (a refusal reported to the sender is fine; whatever is accepted must arrive once, in counter order). Stalled-write runs: one sender is held between a frame's length header and its payload for 6.5 s while the keep-alive comes due (fast clock); the ping must wait its turn and the stream stay whole. In 40% of the runs the server double floods the client with frames while its threads send (all must come up in order). Real dispatchers: the peer stops reading, senders pile up output, the connection is dropped (local disconnect or reset) and the same stack connects again: login, exactly-once and socket bytes = bytes handed to the network layer since the reconnect. Threads calling stack.send() on a stack of framing, Noise and coder layers only (no logger layer above the coder), 15% of the writes slow. Over both real dispatchers a stanza larger than the socket buffers while the peer does not read.",
+            "asyncore loop's), every frame must decrypt in counter order and every stanza id arrive exactly once. A quarter of the probe-level runs start their senders during the handshake (a refusal reported to the sender is fine; whatever is accepted must arrive once, in counter order). Stalled-write runs: one sender is held between a frame's length header and its payload for 6.5 s while the keep-alive comes due (fast clock); the ping must wait its turn and the stream stay whole. In 40% of the runs the server double floods the client with frames while its threads send (all must come up in order). Real dispatchers: the peer stops reading, senders pile up output, the connection is dropped (local disconnect or reset) and the same stack connects again: login, exactly-once and socket bytes = bytes handed to the network layer since the reconnect. Threads calling stack.send() on a stack of framing, Noise and coder layers only (no logger layer above the coder), 15% of the writes slow. Over both real dispatchers a stanza larger than the socket buffers while the peer does not read. While threads send on a core stack built without a props argument, other accounts' stacks start their logins.",
             "Trusted: dissononce cipher states of the peer. In the probe-level runs senders start after the handshake (C04 covers the handshake thread's writes there).",
             "DESIGN.md 4/C11"),
     "C14": ("exploration",
@@ -144,7 +144,7 @@ CHECKS = {
             "every event the model is compared with load_unsent_prekeys, the stored keys and the uploads seen by the server: "
             "pending == stored minus confirmed, confirmed keys never re-offered, every offered (id, key) is in the store until a "
             "delivered first message consumed it and gone afterwards, a replay delivers nothing, identity/registration id match "
-            "the account and the signed prekey verifies under the identity (Curve.verifySignature). Overlapping uploads: the server asks again while earlier uploads are unanswered; results arrive in order, reversed, or the last one is lost. While an upload is unanswered the application issues pings that the server answers (their ids driven past the upload's id): the upload stays unconfirmed. Signed prekey ids are tracked like one-time keys (an id names one key for ever, the server-held one must be in the store); a quarter of the histories start with an unconfirmed first upload followed by a kill; the world's restart rolls back and closes the old connection. Event stray-iq-during-upload (an iq with the unanswered upload's id and type get / set / none / unknown, then the real answer is lost); one restart in four finds the key store locked at first. The account draws the stack options reconnect-on-stream-error (on/off/unset) and auto-trust.",
+            "the account and the signed prekey verifies under the identity (Curve.verifySignature). Overlapping uploads: the server asks again while earlier uploads are unanswered; results arrive in order, reversed, or the last one is lost. While an upload is unanswered the application issues pings that the server answers (their ids driven past the upload's id): the upload stays unconfirmed. Signed prekey ids are tracked like one-time keys (an id names one key for ever, the server-held one must be in the store); a quarter of the histories start with an unconfirmed first upload followed by a kill; the world's restart rolls back and closes the old connection. Event stray-iq-during-upload (an iq with the unanswered upload's id and type get / set / none / unknown, then the real answer is lost); one restart in four finds the key store locked at first. The account draws the stack options reconnect-on-stream-error (on/off/unset) and auto-trust. A fifth of the logins get a success reply lacking one optional attribute; after every accepted login the keys that were pending have to be offered.",
             "Trusted: the server double (stores keys on processing the request), python-axolotl. Histories sampled.",
             "DESIGN.md 4/C14"),
     "C17": ("exploration",
@@ -154,7 +154,7 @@ CHECKS = {
             "After every event the harness asks the observer's store which of the contact's identities it trusts: once the two "
             "have exchanged a message a pin must exist; without automatic trust it must stay the first identity, no message from "
             "or for the new identity may be delivered; with automatic trust the pin moves forward only and the last message of "
-            "each direction after the change must arrive. Mutants (trust check always true, default on) are caught. Histories include first messages that stay undecryptable on every retransmission (identity presented, no session), the server double giving up after three. In half of the histories the server double sends identity-change notifications to the other accounts when an account re-registers. Event restart-a-busy: A's first start finds its key store locked by another process. Other accounts may have the option on when A has not; clients are created in any order and in half of the histories assembled through YowStackBuilder with the options set on the builder.",
+            "each direction after the change must arrive. Mutants (trust check always true, default on) are caught. Histories include first messages that stay undecryptable on every retransmission (identity presented, no session), the server double giving up after three. In half of the histories the server double sends identity-change notifications to the other accounts when an account re-registers. Event restart-a-busy: A's first start finds its key store locked by another process. Other accounts may have the option on when A has not; clients are created in any order and in half of the histories assembled through YowStackBuilder with the options set on the builder. Event x>a-broadcast: the server relays X's message as a broadcast-list / status message (from = list, participant = X). Calls into a stack that do not return are interrupted after 6 s of processor time and judged like an exception.",
             "Trusted: the server double (drops the old installation's keys on re-registration). Histories sampled.",
             "DESIGN.md 4/C17"),
     "C12": ("fault_enumeration",
@@ -184,7 +184,7 @@ CHECKS = {
             "dispatchers over loopback TCP (peer close, local disconnect, refused connect, stream error with automatic "
             "reconnect, re-login after the network thread ended, immediate re-login from another thread while the first "
             "connect() has not returned, login failure), with yield injection inside the dispatchers; judged on announcement "
-            "counts, network-thread termination, no spurious close, resumed (IK) handshake, exceptions in network threads. Real dispatchers: ECONNRESET is injected into the next socket write of the socket and asyncore dispatchers over loopback; the failing send and a later send from another thread must return, no lock may stay held (layer locks and the dispatcher's), the connection is announced down once and a reconnect logs in and carries a stanza. Further events: the connection going down at line event k of the keep-alive thread's step (random k in histories; k=1..20 as scripted sweeps followed by a relogin with every ping answered), a partial further frame behind a connection-ending stanza, a connect request before the stack's loop has delivered the previous 'disconnected' announcement (judged), the new connection even coming up before that (known finding reconnect-up-before-loop-turn), and for asyncore a disconnect() placed between the loop's descriptor collection and its select(). Upward failure under the real dispatchers: a layer raises on an incoming frame, the application reconnects from another thread once the announcement has reached it while the old network thread is held at its next line; the new connection must log in, stay up, be announced down zero times and carry a stanza. A pong may arrive while the keep-alive thread is still inside the send of its ping (event tick-pong-race and scripted histories), after which answered pings must never time out. After every non-critical failure two threads send at once (the thread that saw the failure inside a long send, a second one joining), with yield injection; the strict peer must still decrypt everything exactly once. Real scenario first-login-reboot: passive login, key upload confirmed by the server thread, the library's own close and non-passive reconnect, with the network thread held at its next line in the control layer until the loop thread has worked off the announcement. Race placement after every non-critical failure: the thread that saw the failure, or a fresh one, is held between cipher counter and write queue while the other sends or acknowledges (five role combinations). Key-request failures: a message from a sender without session, the key request fails (answer without keys; failpoint while it goes down), the sender's next message must be handled like the first. Event connect-request-while-up: refused, nothing changes. Real dispatchers: a layer raises on an incoming frame (harness shared with C12): announced down once, a new connect logs in.",
+            "counts, network-thread termination, no spurious close, resumed (IK) handshake, exceptions in network threads. Real dispatchers: ECONNRESET is injected into the next socket write of the socket and asyncore dispatchers over loopback; the failing send and a later send from another thread must return, no lock may stay held (layer locks and the dispatcher's), the connection is announced down once and a reconnect logs in and carries a stanza. Further events: the connection going down at line event k of the keep-alive thread's step (random k in histories; k=1..20 as scripted sweeps followed by a relogin with every ping answered), a partial further frame behind a connection-ending stanza, a connect request before the stack's loop has delivered the previous 'disconnected' announcement (judged), the new connection even coming up before that (known finding reconnect-up-before-loop-turn), and for asyncore a disconnect() placed between the loop's descriptor collection and its select(). Upward failure under the real dispatchers: a layer raises on an incoming frame, the application reconnects from another thread once the announcement has reached it while the old network thread is held at its next line; the new connection must log in, stay up, be announced down zero times and carry a stanza. A pong may arrive while the keep-alive thread is still inside the send of its ping (event tick-pong-race and scripted histories), after which answered pings must never time out. After every non-critical failure two threads send at once (the thread that saw the failure inside a long send, a second one joining), with yield injection; the strict peer must still decrypt everything exactly once. Real scenario first-login-reboot: passive login, key upload confirmed by the server thread, the library's own close and non-passive reconnect, with the network thread held at its next line in the control layer until the loop thread has worked off the announcement. Race placement after every non-critical failure: the thread that saw the failure, or a fresh one, is held between cipher counter and write queue while the other sends or acknowledges (five role combinations). Key-request failures: a message from a sender without session, the key request fails (answer without keys; failpoint while it goes down), the sender's next message must be handled like the first. Event connect-request-while-up: refused, nothing changes. Real dispatchers: a layer raises on an incoming frame (harness shared with C12): announced down once, a new connect logs in. Natural failure key-request-without-t: a key-count notification the library cannot parse, then a well-formed one has to lead to an upload. Stream errors with text before condition.",
             "Trusted: the reference machine (our reading of the statement), scripted dispatcher, loopback server thread. First login (key upload, reconnect) precedes the judged history.",
             "DESIGN.md 4/C16"),
     "C09": ("exploration",
@@ -194,7 +194,7 @@ CHECKS = {
             "without a fixture are converted to their entity and back (300 draws per class quick, 6 000 thorough) and compared "
             "with a strict comparator (numbers by value; protobuf payloads field-wise). 34 application/library-sendable entity "
             "constructors with generated arguments plus generated message entities are serialised and pushed through the "
-            "library encoder, the library decoder and the independent reference decoder. Optional fields: for every receive-side class (a layer or a receive-side entity parses with it) each field is unset / an unset field is set, and when the class's own serialiser answers with pure deletions/additions that stanza must make the same round trip (an absent attribute written back as its default is accepted). Key results mix complete and incomplete users in every order: complete users unchanged, incomplete ones (and only those) reported as errors. Aliasing probe: every text/bytes field of a converted entity is edited, then the same stanza is converted again and must come out unchanged. List-valued fields now and then have 255/256/257 items (where the list header of the wire encoding changes).",
+            "library encoder, the library decoder and the independent reference decoder. Optional fields: for every receive-side class (a layer or a receive-side entity parses with it) each field is unset / an unset field is set, and when the class's own serialiser answers with pure deletions/additions that stanza must make the same round trip (an absent attribute written back as its default is accepted). Key results mix complete and incomplete users in every order: complete users unchanged, incomplete ones (and only those) reported as errors. Aliasing probe: every text/bytes field of a converted entity is edited, then the same stanza is converted again and must come out unchanged. List-valued fields now and then have 255/256/257 items (where the list header of the wire encoding changes). Stream errors come with condition and text in either order (compared order-insensitively for that node).",
             "Trusted: vf/catalogue.py (our transcription of the documented shapes), vf/refcodec.py. Enumeration-valued attributes keep the documented literal.",
             "DESIGN.md 4/C09"),
     "C06": ("exploration",
@@ -205,7 +205,7 @@ CHECKS = {
             "presence, chat state, picture/status/contact/group notifications, calls, ib, success/failure/stream error/features) "
             "are injected at the bottom with generated values (25 draws per cell quick, 500 thorough). Exactly one stanza equal "
             "to the entity's serialisation / one entity of the documented class re-serialising to the stanza is required when "
-            "the owning module is selected, nothing and no exception otherwise. The kind x selection x wiring matrix is complete; values are sampled. All cases of one stack run interleaved in a seeded random order; a reach monitor requires an outgoing kind for every (layer, tag) send handler found in the assembled stack. Reply rounds: requests of every kind sent without callbacks, then their result/error replies in random order while others are outstanding: each reply must produce exactly one entity at the top. Delivered entities are read twice (second serialisation must equal the first); incoming receipts with <list> of items are included. With the encryption layers, really encrypted stanzas from a peer with its own key store arrive in five shapes (first message, later message, group message with sender-key distribution, sender key alone, pairwise-only group stanza as sent in answer to a retry): each gives exactly one entity with the text.",
+            "the owning module is selected, nothing and no exception otherwise. The kind x selection x wiring matrix is complete; values are sampled. All cases of one stack run interleaved in a seeded random order; a reach monitor requires an outgoing kind for every (layer, tag) send handler found in the assembled stack. Reply rounds: requests of every kind sent without callbacks, then their result/error replies in random order while others are outstanding: each reply must produce exactly one entity at the top. Delivered entities are read twice (second serialisation must equal the first); incoming receipts with <list> of items are included. With the encryption layers, really encrypted stanzas from a peer with its own key store arrive in five shapes (first message, later message, group message with sender-key distribution, sender key alone, pairwise-only group stanza as sent in answer to a retry): each gives exactly one entity with the text. Every 9th incoming stanza comes once more with an unknown extra attribute and / or child (in front of the known children for notifications, appended elsewhere): still one entity of the same class.",
             "Trusted: the ownership rule (package defining the entity class) and vf/catalogue.py. iq replies are C08's, encrypted stanzas C03's.",
             "DESIGN.md 4/C06"),
     "C07": ("exploration",
@@ -215,7 +215,7 @@ CHECKS = {
             "payload, unknown media type, media-typed without media type, supported media with the media module left out) are "
             "injected into a stack of bottom probe + axolotl control/send/receive + protocol group for each of the 16 module "
             "selections (40 draws per cell quick, 1 500 thorough). Exactly one ack/receipt/pong with the stanza's id, class, "
-            "type, sender, participant (absent when absent) and call id must be sent down. Four seeded mutants are caught. Encrypt-count notifications carry values over the whole range (0, 9, 10, 11, 100, 811, 812, random). Status notifications come with absent, empty, 1-byte, multi-byte and long bodies. Every 5th stanza is delivered again at once and one from 2 / 9 / 70 stanzas ago every 7th time: answered like a first delivery.",
+            "type, sender, participant (absent when absent) and call id must be sent down. Four seeded mutants are caught. Encrypt-count notifications carry values over the whole range (0, 9, 10, 11, 100, 811, 812, random). Status notifications come with absent, empty, 1-byte, multi-byte and long bodies. Every 5th stanza is delivered again at once and one from 2 / 9 / 70 stanzas ago every 7th time: answered like a first delivery. Every 9th stanza carries an unknown extra attribute and / or child; senders inside newer group ids without a dash, broadcast lists and the status list.",
             "Trusted: our reading of the required answer shapes. Kinds x selections complete, values sampled.",
             "DESIGN.md 4/C07"),
     "C08": ("exploration",
@@ -227,7 +227,7 @@ CHECKS = {
             "with and without the axolotl layers. Exactly the predicted callback must fire, once, with the original request "
             "object and the matching reply; anything else must fire nothing. Library-internal requests (key fetch incl. "
             "error/unknown/duplicate replies, key upload) are judged by their effect (message sent once / keys marked sent). "
-            "Four seeded mutants (shared registry, both callbacks, entry not removed, original not attached) are caught. The send layer's internal chain for a first group message (group info, then one key request for all members without session) runs with key results that leave members out and with replayed results: the message leaves exactly once, the sender key goes to exactly the keyed members, replays trigger nothing. Concurrent runs: 2-4 application threads and a keep-alive-like sender issue requests while a receive thread answers them, with yield injection in the registry code; every callback / reply entity exactly once. Non-reply iq stanzas carrying a pending id have type get, set, none or an unknown one; upload requests are answered with both result shapes. A quarter of the requests are twins of an earlier one (same target and arguments, new id), issued while the first is outstanding or after it was answered.",
+            "Four seeded mutants (shared registry, both callbacks, entry not removed, original not attached) are caught. The send layer's internal chain for a first group message (group info, then one key request for all members without session) runs with key results that leave members out and with replayed results: the message leaves exactly once, the sender key goes to exactly the keyed members, replays trigger nothing. Concurrent runs: 2-4 application threads and a keep-alive-like sender issue requests while a receive thread answers them, with yield injection in the registry code; every callback / reply entity exactly once. Non-reply iq stanzas carrying a pending id have type get, set, none or an unknown one; upload requests are answered with both result shapes. A quarter of the requests are twins of an earlier one (same target and arguments, new id), issued while the first is outstanding or after it was answered. Group-list replies are generated lists of 0..4 groups (empty container included).",
             "Trusted: the reference registry and the documented reply shapes of vf/catalogue.py. Histories sampled.",
             "DESIGN.md 4/C08"),
 }
